@@ -486,10 +486,10 @@ SUBS = [
     Sub("parity", check_parity, strategy=_parity_cases, quick=288, thorough=4000, shards=12, shrink_quick=False,
         floors={"nt": 0.091, "all_pairs_occur": 1.0, "predictors>=3": 0.25, "ratio<1": 0.1, "grid>=20": 0.2,
                 "m:DemographicParity": 0.08, "m:TruePositiveRateParity": 0.077, "m:FalsePositiveRateParity": 0.08,
-                "m:EqualizedOdds": 0.08, "m:ErrorRateParity": 0.066, "groups4": 0.1, "selected_not_min_error": 0.1,
+                "m:EqualizedOdds": 0.075, "m:ErrorRateParity": 0.066, "groups4": 0.1, "selected_not_min_error": 0.1,
                 }),
     Sub("parity_wide_grid", check_parity, strategy=_wide_grid_cases, quick=192, thorough=2000, shards=12, shrink_quick=False,
-        floors={"dummy_used": 0.07, "dummy_with_nonzero_gamma": 0.012}),
+        floors={"dummy_used": 0.054, "dummy_with_nonzero_gamma": 0.012}),
     Sub("parity_missing_pair", check_parity_missing, strategy=_missing_cases, quick=40, thorough=800, shards=4,
         shrink_quick=False, floors={"missing_pair": 1.0, "predictors>=3": 0.05}),
     Sub("bgl", check_bgl, strategy=_bgl_cases, quick=60, thorough=1200, shards=6, shrink_quick=False,
